@@ -362,6 +362,36 @@ def single_unord(g, rng):
     return g
 
 
+# string matches whose text contains a quote or a backslash (X01): gen_grammar's KEYWORDS contain neither, so the
+# unquoting / unescaping of a grammar string match (visit_str_match: `[1:-1]` + decode_escapes) was only ever applied
+# to texts it leaves unchanged.  Both quotes, a backslash, each first / inner / last character of the literal.
+# (no backslash at the end of a literal or before a quote: the grammar language reads backslash-quote after any backslash as an
+# escaped quote, so a literal ending in a backslash swallows what follows up to the next quote and cannot be rendered
+# reliably -- see notes, X01)
+QUOTED_LITS = ["'", '"', "it's", "'a", "b'", 'a"', '"b', "''", "\\n", "a\\\\b", "'\"", "a'b\"c"]
+
+
+def quote_lits(g, rng):
+    """one in ~10 string matches (separators included) becomes a literal with a quote / backslash in it"""
+    import copy
+
+    g = copy.deepcopy(g)
+
+    def walk(e):
+        if isinstance(e, dict):
+            if e.get("k") == "str" and rng.chance(0.1):
+                e["v"] = rng.choice(QUOTED_LITS)
+            for v in list(e.values()):
+                walk(v)
+        elif isinstance(e, list):
+            for v in e:
+                walk(v)
+
+    for r in g["rules"]:
+        walk(r["body"])
+    return g
+
+
 def falsy(e, fr):
     """generator-side copy of Tx.falsy (Doc.lean); the authoritative DocFragment flag comes from the Lean driver"""
     if e.get("sup"):
@@ -752,6 +782,7 @@ class Prop(Check):
             g = single_unord(g, r)
             if style == "doc":
                 g = make_productive(g, r)
+            g = quote_lits(g, Rng("qlit:%d" % r.s))      # own stream: the rest of the case stays what it was
             cfg = r.choice(CFGS)
             texts = sentences(g, r, 6, 3)
             keep = 4 if tier == "quick" else 6
